@@ -56,6 +56,7 @@ type ReqRec struct {
 	Version  int         `json:"version,omitempty"`
 	Thread   int         `json:"thread"`
 	Canceled bool        `json:"canceled,omitempty"`
+	Scheme   string      `json:"scheme,omitempty"`
 }
 
 // Origin is the closed-system upstream: an http.RoundTripper over a resource table.
@@ -138,7 +139,7 @@ func (o *Origin) RoundTrip(req *http.Request) (*http.Response, error) {
 	if req.URL.RawQuery != "" {
 		uri += "?" + req.URL.RawQuery
 	}
-	rec := ReqRec{Seq: len(o.Log), Method: req.Method, Host: req.URL.Host, URI: uri, Header: req.Header.Clone(), Thread: vsched.CurrentThread()}
+	rec := ReqRec{Seq: len(o.Log), Method: req.Method, Host: req.URL.Host, URI: uri, Header: req.Header.Clone(), Thread: vsched.CurrentThread(), Scheme: req.URL.Scheme}
 	if req.Body != nil && req.Body != http.NoBody {
 		b, _ := io.ReadAll(req.Body)
 		rec.Body = string(b)
